@@ -883,7 +883,7 @@ Definition ex_chan (funder : bool) (self_msat : Z) : chan :=
   mkChan funder 100000 CT_Anchors 354 354 self_msat 253 None None [] [] [] 0 0
     (INITIAL_COMMITMENT_NUMBER - 1) (INITIAL_COMMITMENT_NUMBER - 1) false false false.
 Definition ex_sys : sys := mkSys (ex_chan true 70000000) (ex_chan false 30000000) [] [] true.
-Definition ex_oracle : oracle := mkOracle [300000] true 253.
+Definition ex_oracle : oracle := mkOracle [300000] true 253 253.
 (** node 0 sends 5000 sat, full commitment dance, node 1 claims, dance; meanwhile node 1 sends a dust
     HTLC that ends in node 0's holding-cell-free path. *)
 Definition ex_labels : list (oracle * label) :=
